@@ -131,7 +131,7 @@ class VariableSetProcessor(Collector):
         check_id = self.__var_cache.check_id(identity_hash_id)
         if check_id is not None:
             # this means the watch result is already in the var_lookup
-            return VariableId(check_id, name), str(value)
+            return VariableId(check_id, name), self.__to_string(value)
 
         # else this is an unknown value so process breadth first
         var_ids = []
@@ -148,7 +148,15 @@ class VariableSetProcessor(Collector):
 
         var_id = self.__var_cache.check_id(identity_hash_id)
 
-        return VariableId(var_id, name), str(value)
+        return VariableId(var_id, name), self.__to_string(value)
+
+    @staticmethod
+    def __to_string(value) -> str:
+        try:
+            return str(value)
+        except BaseException:
+            # a custom __str__/__repr__ anywhere inside the value can raise
+            return f'{type(value)}@{id(value)}'
 
     def search_function(self, node: Node) -> bool:
         """
